@@ -2,7 +2,15 @@
 
 ASSUMPTIONS = [
     "BitvWord is a 64-bit unsigned word (bitv.h: typedef ULong BitvWord; LP64): the abstract view bit ix = (r[ix/64]>>(ix%64))&1 is stated from that, not from bitv.c's BpW",
-    "bit-vector classes are made by the real bitvClassCreate from a non-negative int and vectors by the real bitvNew (over the allocator stub)",
+    "bit-vector classes are made by the real bitvClassCreate from a non-negative int; vectors by the real bitvNew over an allocator stub (fresh, non-NULL, exactly the requested size), or -- whole-vector jobs -- are the last nwords words of a fixed array so that overruns leave the object",
+    "bitv call-site preconditions: 0 <= ix < nbits (point operations), n <= nbits (bitvCountTo), 0 <= org and lim <= nbits (bitvUnique1IndexInRange), nbits < 32 (bitvToInt/bitvFromInt; asserted by the code); r, a, b are whole vectors of the class that are either identical or disjoint",
+    "bitv: 1L << 63 in bitvTest/Set/Clear (bit 63 of a word) is evaluated with two's-complement wrap as gcc does; strictly it is signed-shift overflow (not checked: --no-standard-checks)",
+    "priq/table/btree/dnf: proof by induction over operations -- each job starts from an ARBITRARY well-formed structure (well-formedness stated in the harness and re-established by every step) and performs one real operation; the size caps in each job's bound apply to that structure",
+    "priq: keys are not NaN; priqExtractMin/priqPeekMin are called on non-empty queues only (of_inlin.c guards with priqCount)",
+    "table: the hash function is consistent with the equality function (equal keys have equal hashes); both are given or both are 0, as at every call site",
+    "table 7-bucket jobs and enlarge jobs: hash values / key pointers are < 16 (resp. < 128 for 7 -> 13 buckets), which still gives every residue pattern modulo the bucket counts involved",
+    "btree: btreeDeleteX is called for keys that are present (store.c deletes what it has just found); node allocator = one whole struct btree with unset branches NULL",
+    "dnf: the two allocation sites of dnf.c are routed by a macro on the name stoAlloc to a stub that returns one whole typed struct dnf_And / dnf_Or (NARY slots), with a guard value just past the requested count",
 ]
 
 
@@ -77,7 +85,7 @@ def jobs(tier):
           defs=["-DBV_MODW=1", "-DBV_MODBITS=%d" % modbits],
           cbmc=["--unwind", str(modbits + 1), "--unwinding-assertions"], timeout=900 if thorough else 120)
     J("bitv.int_roundtrip", B, "h_bitvInt_roundtrip", ["bitvFromInt", "bitvToInt", "bitvSet", "bitvClear", "bitvTest"], ["nbits", "n"],
-      cbmc=["--unwind", "32", "--unwinding-assertions"], native=True)
+      cbmc=["--unwind", "32", "--unwinding-assertions"], native=True, defs=["-DV_ALLOC_SIMPLE"])
 
     # ------------------------------------------------------------------ priq.c (bounded)
     Q = "priq_h.c"
